@@ -86,7 +86,7 @@ class C32(Prop):
     ID = "C32"
     PROPS_FILE = "Props/C32.v"
     CORR_MODULE = "Remap.Corr"
-    MAX_WORKERS = 6
+    MAX_WORKERS = 4
     LEVEL_TEXT = ("Theorems (Coq, closed under the global context) over a byte-level model of remap_path / remap_token_value "
                   "(urllib unquote/quote, the ':/' and scheme tests, os.path.relpath on absolute paths, posixpath.join): "
                   "for directories and names given as arbitrary lists of components (any bytes except '/', not '', '.', "
